@@ -211,7 +211,8 @@ Bodies == { <<Cmd("c1")>>,
             <<Cmd("c1"), Plain("out1"), Cont("y")>>,       \* `> y` after output is output
             <<Cmd("c1"), Code("3"), Cont("y")>>,           \* ... also directly after the exit code line
             <<Cmd("c1"), Plain("[+2]"), Plain("[3] x"), Code("3")>>,
-            <<Blank, Cmd("c1"), Plain("out1")>>,           \* an empty line before the command       \* only unsigned digits in brackets are an exit code
+            <<Blank, Cmd("c1"), Plain("out1")>>,           \* an empty line before the command
+            <<Cmd("c1"), Plain("out1"), Blank, Blank>>,    \* empty lines at the end of the output       \* only unsigned digits in brackets are an exit code
             <<Cmd("c1"), Hash("x"), Blank, Tick1>>,        \* `# x`, an empty line, a backtick line as output
             <<Cmd("c1"), Cont("c2"), Plain("out1 (glob)"), Plain("out2 (?)")>>,
             <<Plain("out only")>>,                        \* no command: error
